@@ -25,6 +25,8 @@ func TestMain(m *testing.M) { ev.Main(m, "C08") }
 
 type Case struct {
 	P *model.Project `json:"project"`
+	// Prelude: sut.Disturb sequence run before the case (0 = none)
+	Prelude int `json:"prelude,omitempty"`
 }
 
 func features(p *model.Project) []string {
@@ -192,6 +194,11 @@ func oasVerdict(kind string, err error, detail string) *ev.Verdict {
 }
 
 func oracle(c Case) *ev.Verdict {
+	if c.Prelude != 0 {
+		// the answer for a project does not depend on what the process handled before it
+		sut.Pristine()
+		sut.Disturb(c.Prelude)
+	}
 	p := c.P
 	if p == nil || p.Root == nil {
 		return nil
@@ -501,8 +508,20 @@ func judged(c Case) *ev.Verdict {
 }
 
 func registerAll() {
+	ev.Register("projects-after-prelude", judged)
 	ev.Register("projects", judged)
 	ev.Register("recursive", judgedRecursive)
+}
+
+// the generated cases after a disturbing prelude on other objects (sut.Disturb), every case from emptied pools
+func TestPropProjectsAfterPreludeAfterPrelude(t *testing.T) {
+	registerAll()
+	ev.Rapid(t, "projects-after-prelude", ev.N(200, 2000), func(t *rapid.T) Case {
+		c := genCase(t)
+		c.Prelude = rapid.IntRange(1, sut.DisturbMax).Draw(t, "prelude")
+		return c
+	}, judged)
+	sut.Pristine()
 }
 
 func TestPropProjects(t *testing.T) {
